@@ -47,6 +47,23 @@ REQUIRE = {
     "oracle_b_esc_prefixed_table_judged": 1404,
     "oracle_b_esc_prefixed_meta_named_judged": 300,
     "oracle_a_event_names_checked": 100000,
+    "schedules_mixed_entry": 2000,
+    "container:list": 1500,
+    "transition:list-left-pending->read": 400,
+    "transition:read-left-pending->list": 400,
+    "transition:list-left-pending->get_input": 400,
+    "container:bytearray": 1500,
+    "transition:bytearray-left-pending->read": 400,
+    "transition:read-left-pending->bytearray": 400,
+    "transition:bytearray-left-pending->get_input": 400,
+    "container:bytes": 1500,
+    "transition:bytes-left-pending->read": 400,
+    "transition:read-left-pending->bytes": 400,
+    "transition:bytes-left-pending->get_input": 400,
+    "container:tuple": 1500,
+    "transition:tuple-left-pending->read": 400,
+    "transition:read-left-pending->tuple": 400,
+    "transition:tuple-left-pending->get_input": 400,
     "table_entries_seen": 400,
     "x10_reports": 1000,
     "sgr_reports": 1500,
@@ -72,10 +89,15 @@ RULE = (
     "UTF-8, random byte soup and mutated token streams; every stream of <= 12 bytes gets all 1-cuts and all 2-cut "
     "pairs x all fire patterns, longer ones random k-cuts; on the blocking get_input path the schedule also contains "
     "SIGWINCH wake-ups of the resize pipe after cuts (real _sigwinch_handler; descriptors real or virtual); ESC + every "
-    "named sequence in all three modes against the absolute rule; distinct = distinct (mode, bytes, cuts, fires, resizes, path); "
+    "named sequence in all three modes against the absolute rule; each chunk enters either through the read path "
+    "(get_available_raw_input / get_input) or is handed to parse_input directly in a list / bytearray / bytes / tuple "
+    "(carrying over what is pending), mixed within one stream; distinct = distinct (mode, bytes, cuts, fires, resizes, path); "
     "non-trivial = at least one byte delivered"
 )
 ASSUMES = [
+    "parse_input's `codes` may be any sequence of ints the docstring / process_keyqueue's Sequence[int] allows: list, bytearray "
+    "('appropriate'), bytes (iterates as ints on Python 3), tuple; an application that hands a chunk itself prepends "
+    "screen._partial_codes exactly as get_available_raw_input does",
     "input codes are bytes 0..255 (the gpm path's synthetic codes > 255 are outside 'byte stream from the terminal')",
     "naming is judged only inside the documented domain: mouse buttons 1-5 / release, modifiers shift/meta/ctrl, no "
     "motion-without-button, no wheel release; a CPR that is textually a table entry (ESC[1;2R = 'shift f3') is ambiguous "
@@ -196,7 +218,7 @@ class Env:
 
 
 class Delivery:
-    __slots__ = ("events", "raw", "steps", "error", "problems", "left_pending", "flushed", "calls", "resize_events", "resize_while_pending", "names_checked")
+    __slots__ = ("events", "raw", "steps", "error", "problems", "left_pending", "flushed", "calls", "resize_events", "resize_while_pending", "names_checked", "marks")
 
     def __init__(self):
         self.events = []
@@ -209,6 +231,7 @@ class Delivery:
         self.calls = 0
         self.resize_events = 0
         self.names_checked = 0
+        self.marks = []  # counter keys: container types used, entry-point transitions taken
         self.resize_while_pending = 0
 
 
@@ -230,7 +253,17 @@ def exc_info(e):
     return (type(e).__name__, where, msg.strip().replace(" ", "_"), "".join(traceback.format_exception(e, limit=-3))[-900:])
 
 
-def deliver(env: Env, mode, data: bytes, cuts=(), fires=()) -> Delivery:
+CONTAINERS = {"list": list, "bytearray": bytearray, "bytes": bytes, "tuple": tuple}
+
+
+def entry_marks(d, prev, ent, how_read):
+    """prev = (entry of the previous chunk, did it leave bytes pending)"""
+    d.marks.append(f"container:{ent}" if ent else f"entry:{how_read}")
+    if prev is not None and prev[1]:
+        d.marks.append(f"transition:{prev[0] or how_read}-left-pending->{ent or how_read}")
+
+
+def deliver(env: Env, mode, data: bytes, cuts=(), fires=(), entries=None) -> Delivery:
     """feed `data` cut at `cuts` through parse_input; fire the virtual timer at the cuts listed in `fires`
     and once more at the end (end of stream = the terminal is silent, the timeout expires)"""
     env.set_mode(mode)
@@ -246,6 +279,8 @@ def deliver(env: Env, mode, data: bytes, cuts=(), fires=()) -> Delivery:
 
     bounds = [0, *cuts, len(data)]
     delivered = 0
+    entries = entries or {}
+    prev = None
 
     def invariants(stage):
         pend = list(s._partial_codes)
@@ -274,10 +309,20 @@ def deliver(env: Env, mode, data: bytes, cuts=(), fires=()) -> Delivery:
     try:
         for i in range(len(bounds) - 1):
             chunk = data[bounds[i] : bounds[i + 1]]
-            s._get_input_codes = lambda chunk=chunk: list(chunk)
             delivered = bounds[i + 1]
-            s.parse_input(loop, cb, s.get_available_raw_input())
+            ent = entries.get(bounds[i])
+            entry_marks(d, prev, ent, "read")
+            if ent is None:
+                # the event-loop read path: get_available_raw_input() prepends the carried-over codes
+                s._get_input_codes = lambda chunk=chunk: list(chunk)
+                s.parse_input(loop, cb, s.get_available_raw_input())
+            else:
+                # the application read this chunk itself and hands it to parse_input in a container of its choice
+                # (docstring: "a sequence of keycodes ... A bytearray is appropriate"), carrying over what is pending
+                s.__dict__.pop("_get_input_codes", None)
+                s.parse_input(loop, cb, CONTAINERS[ent]([*s._partial_codes, *chunk]))
             pend = invariants(f"after chunk {i}")
+            prev = (ent, bool(pend))
             last = i == len(bounds) - 2
             if pend and not last:
                 d.left_pending += 1
@@ -347,8 +392,8 @@ class GetInputRig:
 
     def get(self):
         s = self.screen
-        if s is None or self.dirty or s._partial_codes or "_get_input_codes" in s.__dict__:
-            s = self.fresh()
+        if s is None or self.dirty or s._partial_codes or s.prev_input_resize or "_get_input_codes" in s.__dict__:
+            s = self.fresh()  # (prev_input_resize: the resize throttle state of an earlier case must not leak)
         return s
 
     def close(self):
@@ -358,7 +403,7 @@ class GetInputRig:
         os.close(self.w)
 
 
-def deliver_get_input(env: Env, mode, data: bytes, cuts=(), fires=(), real=False, resizes=(), fds=False) -> Delivery:
+def deliver_get_input(env: Env, mode, data: bytes, cuts=(), fires=(), real=False, resizes=(), fds=False, entries=None) -> Delivery:
     """blocking path.  real: whole data written to the pipe, nothing stubbed.  Otherwise a schedule of events
     (chunk arrives / SIGWINCH wakes the resize pipe / the wait times out) is consumed one event per
     _wait_for_input_ready call made by get_input: fds=False answers the wait from the schedule (virtual),
@@ -369,13 +414,16 @@ def deliver_get_input(env: Env, mode, data: bytes, cuts=(), fires=(), real=False
         env.gi = GetInputRig(env)
     rig = env.gi
     s = rig.get()
+    # timeouts: the real-pipe variant really waits (all 0); the scheduled variants never wait in real time, their
+    # timeout values only identify which wait is asking (complete_wait 7 > resize_wait 3)
+    s.set_input_timeouts(0, 0, 0) if real else s.set_input_timeouts(0, 7.0, 3.0)
     d = Delivery()
     bounds = [0, *cuts, len(data)]
     queue = []
     if 0 in resizes:
         queue.append(("resize", 0))
     for i in range(len(bounds) - 1):
-        queue.append(("chunk", data[bounds[i] : bounds[i + 1]]))
+        queue.append(("chunk", data[bounds[i] : bounds[i + 1]], bounds[i]))
         if bounds[i + 1] in resizes:
             queue.append(("resize", bounds[i + 1]))
         if bounds[i + 1] in fires or i == len(bounds) - 2:
@@ -387,15 +435,19 @@ def deliver_get_input(env: Env, mode, data: bytes, cuts=(), fires=(), real=False
     def wait(timeout):
         if fds and sys._getframe(1).f_code.co_name != "get_input":
             return real_wait(timeout)  # the nested readiness probe of _read_raw_input
+        real_wait0 = lambda _t: real_wait(0)  # noqa: E731
         if state.get("silent"):
-            return real_wait(timeout) if fds else []
+            return real_wait0(0) if fds else []
         kind = queue[0][0] if queue else "expire"
+        if kind == "expire" and timeout == 3.0:
+            # the resize throttle's shorter wait ran out; the completion timeout is still ahead
+            return real_wait0(0) if fds else []
         if kind == "chunk":
             c = queue.pop(0)[1]
             state["delivered"] += len(c)
             if fds:
                 os.write(rig.w, c)
-                return real_wait(timeout)
+                return real_wait(0)
             arrived.append(c)
             return [rig.r]
         if kind == "resize":
@@ -403,11 +455,11 @@ def deliver_get_input(env: Env, mode, data: bytes, cuts=(), fires=(), real=False
             if s._partial_codes:
                 d.resize_while_pending += 1
             s._sigwinch_handler(28, None)  # the real handler: marks _resized and wakes the resize pipe
-            return real_wait(timeout) if fds else [s._resize_pipe_rd.fileno()]
+            return real_wait(0) if fds else [s._resize_pipe_rd.fileno()]
         if queue:
             queue.pop(0)
         state["expired"] = True
-        return real_wait(timeout) if fds else []
+        return real_wait(0) if fds else []
 
     def codes():
         out = [b for c in arrived for b in c]
@@ -433,10 +485,23 @@ def deliver_get_input(env: Env, mode, data: bytes, cuts=(), fires=(), real=False
             if not fds:
                 s._get_input_codes = codes
             guard = 0
+            entries = entries or {}
+            prev = None
             while queue and guard < 4 * len(bounds) + 8:
                 guard += 1
                 state["expired"] = False
-                keys, raw = s.get_input(raw_keys=True)
+                if queue[0][0] == "chunk":
+                    ent = entries.get(queue[0][2])
+                    entry_marks(d, prev, ent, "get_input")
+                if queue[0][0] == "chunk" and entries.get(queue[0][2]):
+                    # type-ahead the application read itself, handed to parse_input synchronously
+                    _k, c, start = queue.pop(0)
+                    state["delivered"] += len(c)
+                    keys, raw = s.parse_input(None, None, CONTAINERS[entries[start]]([*s._partial_codes, *c]))
+                    prev = (entries[start], bool(s._partial_codes))
+                else:
+                    keys, raw = s.get_input(raw_keys=True)
+                    prev = (None, bool(s._partial_codes))
                 d.calls += 1
                 d.events.extend(keys)
                 d.raw.extend(raw)
@@ -550,7 +615,7 @@ class Judge:
     @staticmethod
     def err_sig(d, mode, path="parse_input"):
         t, where, msg, _tb = d.error
-        return f"C05|raise:{t}@{where}|{msg}" + ("|mode=wide" if where in ("within_double_byte",) or (t == "TypeError" and mode == "wide") else "")
+        return f"C05|raise:{t}@{where}|{msg}" + ("|mode=wide" if where in ("within_double_byte", "process_keyqueue") and t == "TypeError" and mode == "wide" else "")
 
     def judge(self, case):
         """-> list of (signature, message)"""
@@ -558,6 +623,7 @@ class Judge:
         mode, descs = case["mode"], case["descs"]
         cuts, fires = list(case.get("cuts", ())), list(case.get("fires", ()))
         path = case.get("path", "loop")
+        entries = {int(p): t for p, t in case.get("entries", ()) if int(p) == 0 or int(p) in cuts}
         data, toks, exp, spans = env.model.stream(descs, mode)
         out = []
         if not data:
@@ -593,8 +659,10 @@ class Judge:
             return out
         # ---- (c) fragmentation on the event-loop path
         if path == "loop":
-            if cuts:
-                f = deliver(env, mode, data, cuts, fires)
+            if cuts or entries:
+                f = deliver(env, mode, data, cuts, fires, entries)
+                for mk in f.marks:
+                    self.cnt(mk)
                 self.cnt("deliveries")
                 self.cnt("oracle_a_event_names_checked", f.names_checked)
                 self.cnt("oracle_a_partition_checks")
@@ -602,7 +670,7 @@ class Judge:
                 self.cnt("oracle_c_timer_flushed_pending", f.flushed if fires else 0)
                 kind = "fire" if fires else "nofire"
                 if f.error is not None:
-                    return [(self.err_sig(f, mode), f"{list(data)} in {mode} mode cut at {cuts} timer fired at {fires}: {f.error[3]}")]
+                    return [(self.err_sig(f, mode), f"{list(data)} in {mode} mode cut at {cuts} timer fired at {fires} entries {entries}: {f.error[3]}")]
                 for tail, msg in f.problems:
                     out.append((f"C05|parse_input|{tail}|fragmented", msg + f" cuts={cuts} fires={fires}"))
                 if fires:
@@ -624,7 +692,7 @@ class Judge:
                     out.append(
                         (
                             f"C05|frag|{kind}|{how}|cut-in:{cut_class(toks, spans, cuts, data)}",
-                            f"{mode} {list(data)} cuts={cuts} fires={fires}: got {f.events} expected {expected} (first difference at event {i})",
+                            f"{mode} {list(data)} cuts={cuts} fires={fires} entries={entries}: got {f.events} expected {expected} (first difference at event {i})",
                         )
                     )
                 else:
@@ -634,12 +702,16 @@ class Judge:
         real = path == "realfd"
         fds = path == "get_input_fds"
         resizes = [] if real else [r for r in case.get("resizes", ()) if r == 0 or r in cuts]
-        g = deliver_get_input(env, mode, data, () if real else cuts, () if real else fires, real=real, resizes=resizes, fds=fds)
+        if entries and not real:
+            fires = []  # a mid-stream expiry cannot be placed deterministically next to a synchronous parse_input call
+        g = deliver_get_input(env, mode, data, () if real else cuts, () if real else fires, real=real, resizes=resizes, fds=fds, entries=None if real else entries)
+        for mk in g.marks:
+            self.cnt(mk)
         self.cnt("oracle_e_realfd_cases" if real else ("oracle_e_get_input_fds_cases" if fds else "oracle_e_get_input_cases"))
         self.cnt("oracle_e_resize_wakeups", len(resizes))
         self.cnt("oracle_e_resize_wakeups_while_pending", g.resize_while_pending)
         if g.error is not None:
-            return [(self.err_sig(g, mode, "get_input"), f"get_input on {list(data)} cuts={cuts} fires={fires}: {g.error[3]}")]
+            return [(self.err_sig(g, mode, "get_input"), f"get_input on {list(data)} cuts={cuts} fires={fires} entries={entries}: {g.error[3]}")]
         for tail, msg in g.problems:
             out.append((f"C05|{tail}", f"{mode} {list(data)} cuts={cuts} fires={fires} resizes={resizes} path={path}: {msg}"))
         if out:
@@ -654,7 +726,7 @@ class Judge:
                 sig = "C05|get_input|resize-wakeup-changes-decoding|" + ("pending-decoded-before-timeout" if g.resize_while_pending else "nothing-pending")
             else:
                 sig = f"C05|get_input|events-differ-from-event-loop-path|{'realfd' if real else ('fds' if fds else 'virtual')}"
-            out.append((sig, f"{mode} {list(data)} cuts={cuts} fires={fires} SIGWINCH-after={resizes}: get_input (minus 'window resize') {g.events} vs parse_input {ref.events}"))
+            out.append((sig, f"{mode} {list(data)} cuts={cuts} fires={fires} SIGWINCH-after={resizes} entries={entries}: get_input (minus 'window resize') {g.events} vs parse_input {ref.events}"))
         else:
             self.cnt("oracle_e_equal")
             if g.resize_while_pending:
@@ -699,6 +771,10 @@ def _norm_case(case, env):
     out = {"path": case.get("path", "loop"), "mode": case["mode"], "descs": case["descs"], "cuts": cuts, "fires": fires}
     if case.get("resizes"):
         out["resizes"] = sorted({r for r in case["resizes"] if r == 0 or r in cuts})
+    if case.get("entries"):
+        ent = {int(p): t for p, t in case["entries"] if int(p) == 0 or int(p) in cuts}
+        if ent:
+            out["entries"] = [[p, t] for p, t in sorted(ent.items())]
     return out
 
 
@@ -718,7 +794,7 @@ def shrink(env: Env, case, sig, budget=150):
     while changed and budget > 0:
         changed = False
         # fewer cuts / fires
-        for key in ("resizes", "fires", "cuts"):
+        for key in ("entries", "resizes", "fires", "cuts"):
             for x in list(case.get(key, ())):
                 c2 = dict(case, **{key: [y for y in case[key] if y != x]})
                 c2 = _norm_case(c2, env)
@@ -730,7 +806,7 @@ def shrink(env: Env, case, sig, budget=150):
             data, toks, _e, spans = env.model.stream(case["descs"], case["mode"])
             a, b = spans[i]
             shift = lambda c: c if c <= a else (a if c < b else c - (b - a))  # noqa: E731
-            c2 = dict(case, descs=case["descs"][:i] + case["descs"][i + 1 :], cuts=[shift(c) for c in case["cuts"]], fires=[shift(c) for c in case["fires"]], resizes=[shift(c) for c in case.get("resizes", ())])
+            c2 = dict(case, descs=case["descs"][:i] + case["descs"][i + 1 :], cuts=[shift(c) for c in case["cuts"]], fires=[shift(c) for c in case["fires"]], resizes=[shift(c) for c in case.get("resizes", ())], entries=[[shift(p_), t_] for p_, t_ in case.get("entries", ())])
             c2 = _norm_case(c2, env)
             if c2["descs"] and still(c2):
                 case, changed = c2, True
@@ -750,7 +826,7 @@ def shrink(env: Env, case, sig, budget=150):
                 shift = lambda c: c if c <= pos else c - 1  # noqa: E731
                 nd = list(case["descs"])
                 nd[ti] = ["raw", bs[:k] + bs[k + 1 :]]
-                c2 = _norm_case(dict(case, descs=nd, cuts=[shift(c) for c in case["cuts"]], fires=[shift(c) for c in case["fires"]], resizes=[shift(c) for c in case.get("resizes", ())]), env)
+                c2 = _norm_case(dict(case, descs=nd, cuts=[shift(c) for c in case["cuts"]], fires=[shift(c) for c in case["fires"]], resizes=[shift(c) for c in case.get("resizes", ())], entries=[[shift(p_), t_] for p_, t_ in case.get("entries", ())]), env)
                 if still(c2):
                     case, changed = c2, True
                 else:
@@ -766,6 +842,7 @@ def repro_code(env, case):
         f"urwid.set_encoding({M.MODE_ENCODING[case['mode']]!r}); s=urwid.display.raw.Screen(input=object(),output=io.StringIO()); "
         f"chunks={[list(c) for c in chunks]!r}; fire_after_cut={case['fires']!r}  # feed each chunk via s._get_input_codes + "
         f"s.parse_input(loop, cb, s.get_available_raw_input()), call the alarm callback where fired and at the end"
+        + (f"; chunks starting at these offsets are handed directly as parse_input(loop, cb, <type>([*s._partial_codes, *chunk])): {case['entries']}" if case.get("entries") else "")
         + ("; path=" + case["path"] + (f"; SIGWINCH (real _sigwinch_handler) right after cut {case['resizes']}, before the next chunk" if case.get("resizes") else "") if case["path"] != "loop" else "")
     )
 
@@ -1006,10 +1083,12 @@ class Runner:
                 case_out = _norm_case(case, self.env)
             ctx.violation(sig, msg + "\nrepro: " + repro_code(self.env, case_out), case_out)
 
-    def one(self, mode, descs, cuts=(), fires=(), path="loop", resizes=()):
+    def one(self, mode, descs, cuts=(), fires=(), path="loop", resizes=(), entries=()):
         case = {"path": path, "mode": mode, "descs": descs, "cuts": list(cuts), "fires": list(fires)}
         if resizes:
             case["resizes"] = list(resizes)
+        if entries:
+            case["entries"] = [list(e) for e in entries]
         found = self.judge.judge(case)
         if found:
             self.report(case, found)
@@ -1048,13 +1127,24 @@ class Runner:
                 if not self.one(mode, descs, cuts, fires):
                     break
         k = self.nstream
+        types = list(CONTAINERS)
+        if n > 1 and sched != "none":
+            # mixed entry points: some chunks are handed to parse_input directly in a list / bytearray / bytes / tuple,
+            # the others come through get_available_raw_input(); cuts inside sequences leave a typed tail pending
+            for cuts, fires in schedules_random(rng, n, 2):
+                entries = [[p, rng.choice(types)] for p in [0, *cuts] if rng.random() < 0.5]
+                ctx.case((mode, hx, cuts, fires, entries))
+                ctx.count("schedules_mixed_entry")
+                if not self.one(mode, descs, cuts, fires, entries=entries):
+                    break
         if k % 5 == 0:
             cuts, fires = next(schedules_random(rng, n, 1)) if n > 1 else ([], [])
             # SIGWINCH wake-ups are schedule events too: after some cuts the resize pipe becomes ready before the remainder
             resizes = [c for c in cuts if rng.random() < 0.5] + ([0] if rng.random() < 0.1 else [])
             gpath = "get_input" if (k // 5) % 2 else "get_input_fds"
-            ctx.case((mode, hx, cuts, fires, resizes, gpath))
-            self.one(mode, descs, cuts, fires, path=gpath, resizes=resizes)
+            entries = [[p, rng.choice(types)] for p in [0, *cuts] if rng.random() < 0.4] if k % 10 == 0 else []
+            ctx.case((mode, hx, cuts, fires, resizes, gpath, entries))
+            self.one(mode, descs, cuts, fires, path=gpath, resizes=resizes, entries=entries)
         if k % 23 == 0 and n <= 2048:
             ctx.case((mode, hx, "realfd"))
             self.one(mode, descs, path="realfd")
@@ -1093,6 +1183,15 @@ def enumerations(ctx, R: Runner):
             for c in sorted({1, n // 2 or 1, n - 1}):
                 ctx.case(("utf8", seq, c, "gi-resize"))
                 R.one("utf8", [["seq", seq]], [c], [], path="get_input_fds" if c % 2 else "get_input", resizes=[c])
+            # container type x entry-point transition, cut inside the sequence: typed chunk then the read path / get_input,
+            # and the read path then a typed chunk
+            c = n // 2 or 1
+            for ti, t in enumerate(CONTAINERS):
+                ctx.case(("utf8", seq, c, t, "entries"))
+                R.one("utf8", [["seq", seq]], [c], [], entries=[[0, t]])
+                R.one("utf8", [["seq", seq]], [c], [], entries=[[c, t]])
+                R.one("utf8", [["seq", seq]], [c], [], path="get_input_fds" if ti % 2 else "get_input", entries=[[0, t]])
+                # (get_input -> typed chunk with bytes pending cannot happen: get_input only returns once nothing is pending)
     # E0b core, never skipped: ESC in front of every named sequence, all three modes, judged against the rule
     # ['meta '+N] if N carries no 'meta ' else ['esc', N]  (absolute reference, not split-vs-whole)
     for seq in model.named:
@@ -1103,6 +1202,34 @@ def enumerations(ctx, R: Runner):
                 ctx.count("oracle_b_esc_prefixed_table_judged", ctx.counters["oracle_b_naming_streams"] - before)
                 if "meta " in model.table[seq]:
                     ctx.count("oracle_b_esc_prefixed_meta_named_judged", ctx.counters["oracle_b_naming_streams"] - before)
+    # E0c core, never skipped: pass-through of invalid UTF-8 (every lead / stray byte, truncated after 1 and 2
+    # continuation bytes, followed by a key) and of every malformed SGR / CPR template, whole delivery
+    for b0 in range(0x80, 0x100):
+        if mine():
+            cont = 0x80 | (b0 & 0x3F)
+            for run in ([b0], [b0, cont], [b0, cont, cont ^ 1]):
+                R.stream("utf8", [["u8bad", run], ["byte", 49], ["seq", "[A"]], sched="none")
+                ctx.count("enumeration_items:E0c")
+    for dsc in [["broken", cls, t, 0] for cls, lst in SGR_BAD.items() for t in lst] + [["broken", "cpr-zero", t, 0] for t in CPR_BAD]:
+        if mine():
+            R.stream("utf8", [["byte", 97], dsc, ["seq", "[B"]], sched="none")
+            ctx.count("enumeration_items:E0c")
+    # E0d core, never skipped: one report of every kind / one character of every length, all cuts and cut pairs
+    for mode, descs in [
+        ("utf8", [["cpr", 12, 345]]),
+        ("narrow", [["cpr", 7, 80], ["cpr", 24, 1]]),
+        ("utf8", [["x10", 32 + 8 + 1, 100, 60], ["byte", 120]]),
+        ("narrow", [["x10", 35, 255, 33]]),
+        ("utf8", [["sgr", 0, 5, 6, "m"], ["sgr", 0, 7, 8, "M"]]),
+        ("wide", [["sgr", 66, 120, 45, "M"], ["byte", 120]]),
+        ("utf8", [["utf8", 0xE9], ["utf8", 0x3042], ["utf8", 0x1F600], ["byte", 97]]),
+        ("wide", [["dbcs", 0xA4, 0xA2], ["dbcs", 0xB0, 0xA1], ["byte", 97]]),
+        ("narrow", [["byte", 0xE9], ["meta", ["byte", 0xE9]], ["byte", 27]]),
+        ("utf8", [["meta", ["byte", 97]], ["meta", ["utf8", 0xE9]], ["byte", 27]]),
+    ]:
+        if mine():
+            R.stream(mode, descs, sched="exhaustive", pairs=True)
+            ctx.count("enumeration_items:E0d")
     # E1 every named sequence, alone (all cuts and cut pairs x fire patterns) in every mode, and embedded
     for si, seq in enumerate(model.named):
         for mi, mode in enumerate(MODES):
@@ -1295,7 +1422,7 @@ def replay(ctx, wit):
     env = Env()
     try:
         R = Runner(ctx, env)
-        R.one(wit["mode"], wit["descs"], wit.get("cuts", ()), wit.get("fires", ()), wit.get("path", "loop"), wit.get("resizes", ()))
+        R.one(wit["mode"], wit["descs"], wit.get("cuts", ()), wit.get("fires", ()), wit.get("path", "loop"), wit.get("resizes", ()), wit.get("entries", ()))
         ctx.case((wit["mode"], wit["descs"], wit.get("cuts"), wit.get("fires")))
     finally:
         env.close()
